@@ -382,10 +382,13 @@ func (x *Exec) havocCell(st *State, c *Cell) {
 	}
 	t, isTerm := old.(*Term)
 	if !isTerm {
-		if _, isOwned := old.(*Owned); isOwned {
-			x.unsupported(st, token.NoPos, "loop writes a cell holding a fresh slice (%s)", c.name)
+		if o, isOwned := old.(*Owned); isOwned {
+			// the variable is re-assigned in the loop (e.g. s = append(s, x)): from here on it is an ordinary sequence value
+			st.owned[o.id].frozen = true
+			t = x.ownedTerm(st, o)
+		} else {
+			return // closures are assigned once
 		}
-		return // closures are assigned once
 	}
 	nv := st.Fresh(c.name, t.Sort)
 	nv.T = c.typ
